@@ -232,6 +232,7 @@ class Case:
                 # the node has answered them already (handler failure): all of them / every second arrival
                 submitted = set(ri for ri in range(len(sp["placement"])) if sp["first_via"] == "raise" or ri % 2 == 1)
                 self.unanswered -= submitted
+                self.node_answered = set(submitted)
                 self.run.cov["first_answer_by_node"] = self.run.cov.get("first_answer_by_node", 0) + len(submitted)
             steps = list(sp["order"])
             if sp["concurrent"]:
@@ -276,7 +277,10 @@ class Case:
         `answer.identifiers_pending_on_two_connections`): the submission is observed, judged under that one key, and
         nothing after it is judged in this case (the harness no longer knows which connection's record was used)."""
         S = self.req_sock[ri]
-        others = [rj for rj in self.unanswered if rj != ri and self.req_ids[rj] == self.req_ids[ri]
+        # ... or were, when the node itself answered the other one at its arrival (a failing handler): both were pending
+        # then, and the node's own answer found its connection by the same pair
+        cand = set(self.unanswered) | getattr(self, "node_answered", set())
+        others = [rj for rj in cand if rj != ri and self.req_ids[rj] == self.req_ids[ri]
                   and self.req_sock[rj] is not S]
         if not others:
             return False
